@@ -34,7 +34,7 @@ def _calls(fn_node, attr: str) -> List[ast.Call]:
 def rule_r1(ctx) -> List[R.Inst]:
     M = ctx.M
     q = TL + ".__getitem__"
-    fn = M.fn(q)
+    fn = M.nfn(q, guards=True)       # (a branch that returns followed by the rest reads as if / else)
     file, line = fn_loc(M, q)
     int_branch = None
     for n in walk_no_nested(fn.node):
